@@ -38,7 +38,8 @@ def tok_format(obj, format_spec=""):
         t = _tok(obj)
         if t is not None:
             return t
-    return _orig_format(obj, format_spec)
+    # called from this frame, `format` resolves to the next lower patch layer (CrossHair's own)
+    return format(obj, format_spec)
 
 
 def tok_int(val=0, base=bl._MISSING):
@@ -49,7 +50,10 @@ def tok_int(val=0, base=bl._MISSING):
             cp = ord(val)
             if cp >= OFF:
                 return cp - OFF
-    return _orig_int(val, base)
+    # called from this frame, `int` resolves to the next lower patch layer (CrossHair's own)
+    if base is bl._MISSING:
+        return int(val)
+    return int(val, base)
 
 
 def _sym_repr(self):
@@ -59,12 +63,30 @@ def _sym_repr(self):
     return _orig_repr(self)
 
 
+TOKEN_PATCHES = {format: tok_format, int: tok_int}
+
+
 def install():
+    """Layer the token patches ON TOP of CrossHair's own patches for int/format (the
+    patching module resolves calls made from a patch's own frame to the next lower layer)."""
     global INSTALLED
     if INSTALLED:
         return
-    chcore._PATCH_REGISTRATIONS[format] = tok_format
-    chcore._PATCH_REGISTRATIONS[int] = tok_int
+    from crosshair.tracers import COMPOSITE_TRACER
+    orig_enter = chcore.Patched.__enter__
+    orig_exit = chcore.Patched.__exit__
+
+    def enter(self):
+        r = orig_enter(self)
+        COMPOSITE_TRACER.patching_module.add(TOKEN_PATCHES)
+        return r
+
+    def exit_(self, exc_type, exc_val, exc_tb):
+        COMPOSITE_TRACER.patching_module.pop(TOKEN_PATCHES)
+        return orig_exit(self, exc_type, exc_val, exc_tb)
+
+    chcore.Patched.__enter__ = enter
+    chcore.Patched.__exit__ = exit_
     bl.SymbolicIntable.__repr__ = _sym_repr
     bl.SymbolicInt.__str__ = _sym_repr
     INSTALLED = True
